@@ -3,7 +3,6 @@ import json
 from srcheck import props
 
 NA = [
-    {"property_id": "C07", "reason": "optimality and uniqueness of the LCA mapping among all reconciliations for every dup/loss cost is a numerical for-all over trees and costs; the implementing construct is a six-line propagation with no sibling implementation, pairing or table to cross-check, so a static rule would be a frozen fragment (DESIGN.md section 10)"},
     {"property_id": "C17", "reason": "exactness of the Euler-tour / sparse-table index arithmetic is a loop-invariant argument over array indices and runtime values; no necessary structural condition exists that is not a restatement of the code (DESIGN.md section 10)"},
     {"property_id": "C18", "reason": "bit-loop semantics of the mask routines (run counting, end handling, round trips) are value-level; nothing in the shape of the code separates a right from a wrong run count without executing it (DESIGN.md section 10)"},
 ]
